@@ -24,6 +24,10 @@ open OllamaVerif OllamaVerif.BlobCache OllamaVerif.Generated.C08
 /-- the tree's `Link` is the repaired one -/
 theorem tree_link_is_fixed : linkFixed = true := by decide
 
+/-- the tree's `Link` refuses a zero-length blob file whose digest is not that of the empty string (fix 892890804; the
+    all-fixed variant is the EXPECTED one: if the probe finds the refusal gone, this stops compiling) -/
+theorem tree_link_zero_checked : linkZeroCheck = true := by decide
+
 /-- **Link then Resolve, for the tree's `Link`** — no guard on what the name was linked to before -/
 theorem tree_link_then_resolve (hash : Bytes → Digest) (k : Disk) (name : Bytes) (d : Digest)
     (f : Bytes) (want : MPath)
